@@ -16,6 +16,19 @@ inductive Slot | under | bin (i : Nat) | over deriving Repr, BEq, DecidableEq
 def slotOf (nbins : Nat) (b : Int) : Slot :=
   if b < 0 then .under else if b ≥ nbins then .over else .bin b.toNat
 
+/-! ### The conversion of a bin position to a machine `int`
+
+Go's `int(f)` of a float64 beyond the int range is implementation-defined (the most negative int on amd64).
+`conv` stands for that conversion: nothing is known of it outside `0 ≤ p < 2^63`. `clampBinM` is the repaired
+`clampBin` (compare in floating point first, convert afterwards); `oldBinM` the pinned `int(math.Floor(p))`. -/
+
+/-- `clampBin(b, nbins)` with an arbitrary conversion `conv` for in-range values -/
+def clampBinM (conv : Rat → Int) (p : Rat) (nbins : Nat) : Int :=
+  if ¬ (p ≥ 0) then -1 else if p ≥ (nbins : Rat) then (nbins : Int) else conv p
+
+/-- the pinned code: convert first -/
+def oldBinM (conv : Rat → Int) (p : Rat) : Int := conv p
+
 structure Counts where
   under : Nat
   bins : List Nat
